@@ -255,7 +255,7 @@ def render_query(case, sp=None, lang='py'):
     # clause order after SELECT/UPDATE is free (C08)
     mistake = q.get('mistake', '')
     if mistake == 'where_assign':
-        clauses = [c.replace('==', '=') if c.upper().startswith('WHERE') else c for c in clauses]
+        clauses = [c.replace('===', '=').replace('==', '=') if c.upper().startswith('WHERE') else c for c in clauses]
     elif mistake == 'two_selects':
         clauses.append('select a2')
     elif mistake == 'bad_limit':
